@@ -60,6 +60,7 @@ from ..core.util import weighted as weighted_choice  # noqa (used by qgen2)
 # probability of the SelectMany-inside-an-expression shapes per expression slot (a defect lived there - fixed in /repo;
 # VERIF_QGEN_FLAT raises it, which is how the repair was validated)
 P_FLAT = float(_os.environ.get("VERIF_QGEN_FLAT", "0.10"))
+P_CHAIN = 0.05  # ... and of an aggregate over two flattenings in a row
 
 
 class QGen:
@@ -260,12 +261,12 @@ class QGen:
             self.shape.append("where")
         return src, etype
 
-    def flat_seq(self, evar, depth):
+    def flat_seq(self, evar, depth, chain=False):
         """a sequence obtained by flattening (SelectMany inside an expression): (text, 'num'|'obj', etype, numkind)"""
         r = self.r
         s, et = self.seq_of_obj(evar, depth)
         v = self.var("m")
-        if r.random() < 0.5:
+        if not chain and r.random() < 0.5:
             m = r.choice(["cvals", "ivals"])
             self.declare(et, m)
             self.shape.append("flat_member")
@@ -275,14 +276,30 @@ class QGen:
         s2, et2 = self.seq_of_obj(evar, depth - 1, allow_where=r.random() < 0.3)
         self.uncond = was
         self.shape.append("flat_cross")
-        return f"{s}.SelectMany(lambda {v}: {s2})", "obj", et2, None
+        txt = f"{s}.SelectMany(lambda {v}: {s2})"
+        if chain or r.random() < 0.4:
+            # two flattenings in a row: the loop nest of what is aggregated starts two loops further out
+            v2 = self.var("m")
+            if r.random() < 0.35:
+                m = r.choice(["cvals", "ivals"])
+                self.declare(et2, m)
+                self.shape.append("flat_chain_member")
+                return f"{txt}.SelectMany(lambda {v2}: {v2}.{m}())", "num", None, "double" if m == "cvals" else "int"
+            was = self.uncond
+            self.uncond = False
+            s3, et3 = self.seq_of_obj(evar, 0, allow_where=r.random() < 0.3)
+            self.uncond = was
+            self.shape.append("flat_chain_cross")
+            return f"{txt}.SelectMany(lambda {v2}: {s3})", "obj", et3, None
+        return txt, "obj", et2, None
 
     def evt_num(self, evar, depth):
         """numeric scalar of the event (aggregates, First, singleton access)"""
         r = self.r
         k = r.random()
-        if depth > 0 and r.random() < P_FLAT:
-            fs, kind, et, nk = self.flat_seq(evar, depth)
+        k_flat = r.random()
+        if depth > 0 and k_flat < P_FLAT + P_CHAIN:
+            fs, kind, et, nk = self.flat_seq(evar, depth if k_flat < P_FLAT else 0, chain=k_flat >= P_FLAT)
             agg = r.choice(["Count", "Sum", "Max", "First"])
             self.shape.append("flat" + agg)
             if kind == "num":
@@ -497,7 +514,7 @@ class QGen:
         r = self.r
         steps = []
         form = r.choice(["evt_single", "evt_tuple", "evt_dict", "per_object", "per_object_tuple", "two_step", "two_step_tuple",
-                         "flat_rows", "pair_rows", "two_step_dict", "two_step_filtered"])
+                         "flat_rows", "pair_rows", "two_step_dict", "two_step_filtered", "evt_shared"])
         depth = r.choice([1, 2, self.max_depth])
         self.shape.append(form)
         if r.random() < 0.25:
@@ -520,6 +537,38 @@ class QGen:
                 steps.append(["Select", f"lambda e: ({', '.join(cols)})"])
             else:
                 steps.append(["Select", "lambda e: {" + ", ".join(f"'c{i}': {c}" for i, c in enumerate(cols)) + "}"])
+        elif form == "evt_shared":
+            # one event-level value handed to a lambda that uses it several times: first inside a block that is only
+            # executed for some events (a branch of a conditional, the right operand of and/or), then as a column of its own
+            x, _ = self.evt_num("e", max(0, depth - 1))
+            n = self.var("n")
+            c0 = r.choice(["0.0", "-1.0", "-1000.0"])
+            kk = r.random()
+            if r.random() < 0.6:
+                cond = self.evt_bool("e", 1)
+                if kk < 0.35:
+                    body = f"({c0} if {cond} else {n}, {n})"
+                elif kk < 0.55:
+                    body = f"({n} if {cond} else {c0}, {n})"
+                elif kk < 0.75:
+                    body = f"({c0} if {cond} else {n} * 2.0, {n}, {n} + 1.0)"
+                else:
+                    body = f"(({cond}) {r.choice(['and', 'or'])} ({n} > {r.choice(FLOATS)}), {n})"
+                steps.append(["Select", f"lambda e: (lambda {n}: {body})({x})"])
+                self.shape.append("shared_lambda")
+            else:
+                s_, et_ = self.seq_of_obj("e", 0, allow_where=r.random() < 0.3)
+                t = self.var("p")
+                steps.append(["Select", f"lambda e: ({s_}, {x})"])
+                cnd = f"{t}[0].Count() {r.choice(['> 0', '== 0', '> 1'])}"
+                if kk < 0.4:
+                    body = f"({c0} if {cnd} else {t}[1], {t}[1])"
+                elif kk < 0.7:
+                    body = f"({t}[1] if {cnd} else {c0}, {t}[1])"
+                else:
+                    body = f"(({cnd}) {r.choice(['and', 'or'])} ({t}[1] > {r.choice(FLOATS)}), {t}[1])"
+                steps.append(["Select", f"lambda {t}: {body}"])
+                self.shape.append("shared_tuple")
         elif form in ("per_object", "per_object_tuple"):
             s, et = self.seq_of_obj("e", depth)
             steps.append(["SelectMany", f"lambda e: {s}"])
